@@ -225,7 +225,9 @@ def run_cluster(plan, out):
         for attempt in range(4):
             try:
                 return construct_once(r)
-            except InjectedReadError:
+            except Exception as e:
+                if not core.caused_by(e, InjectedReadError):
+                    raise
                 # the storage failed once while the sampler read the labels: the rank sees the error and builds the sampler again
                 out.count("fault:label_read_error_during_sampler_construction")
         raise RuntimeError("sampler construction keeps failing")
@@ -252,9 +254,12 @@ def run_cluster(plan, out):
         torch.multinomial = refusing_multinomial
     try:
         return _run_cluster(plan, out, w, W, ch, base_ds, procs, refp, ds, samplers, implicit, construct)
-    except RuntimeError as e:
-        if w.get("multinomial_fails") and "injected" in str(e):
-            raise LoudFailure(str(e))
+    except Exception as e:
+        cur, depth = e, 0
+        while cur is not None and depth < 12:
+            if w.get("multinomial_fails") and isinstance(cur, RuntimeError) and "2^24 (injected)" in str(cur):
+                raise LoudFailure(str(e))
+            cur, depth = cur.__cause__ or cur.__context__, depth + 1
         raise
     finally:
         torch.multinomial = real_multinomial
@@ -272,8 +277,9 @@ def _run_cluster(plan, out, w, W, ch, base_ds, procs, refp, ds, samplers, implic
                 try:
                     ref = make_sampler(w, ref_ds, 0, 1)
                     break
-                except InjectedReadError:
-                    pass
+                except Exception as e:
+                    if not core.caused_by(e, InjectedReadError):
+                        raise
     except AssertionError as e:
         raise Rejected(str(e))
     res = dict(streams=[], lens=[], prefix_ok=[], reiter_ok=[], ref=[], ref_len=[])
